@@ -17,6 +17,13 @@ ADTDRV = os.path.join(SCM, "c18adt.scm")
 # ------------------------------------------------------------------------------------------------
 # helpers
 # ------------------------------------------------------------------------------------------------
+def fname(key):
+    """file-name-safe, injective enough rendering of a report key"""
+    for a, b in (("<", "lt"), (">", "gt"), ("=", "eq"), ("?", "p"), ("!", "x"), ("+", "plus"), ("/", "-"), (":", "_")):
+        key = key.replace(a, b)
+    return re.sub(r"[^A-Za-z0-9_-]+", "_", key)
+
+
 def sexp(x):
     """python value -> s-expression text (format conversion for the drivers)"""
     if isinstance(x, bool):
@@ -334,14 +341,14 @@ def sorting(chk, sc, build):
         lst = sorted(rejs[key], key=lambda t: (t[0], t[1]["id"]))
         n, c, ev, why, tabs = lst[0]
         # re-validate the smallest rejected call of this kind alone: isolates it and rules out a tool hiccup
-        one = sc.file("sortone_%s.ndjson" % re.sub(r"[^A-Za-z0-9]+", "_", key))
+        one = sc.file("sortone_%s.ndjson" % fname(key))
         vlib.write_ndjson(one, tabs + [ev, {"e": "End"}])
         if not trace_verdict(validate_sort(sc, one, to=300), 0, "SortedTrace single case"):
             raise Broken("call rejected in the batch but accepted alone: %s" % json.dumps(c)[:300])
         chk.report(key, "%s: %s (%d rejected calls of this kind; smallest: %s of %s keys, %s, ordering %s): %s" %
                    (c["fn"], why, len(lst), c["seq"], c["dom"], c["wrap"], c["ord"],
                     json.dumps({"a": ev["a"], "b": ev["b"], "out": ev["out"], "res": ev["res"]}) if n <= 12 else "%d elements" % n),
-                   "sort_%s.json" % re.sub(r"[^A-Za-z0-9]+", "_", key),
+                   "%s.json" % fname(key),
                    {"key": key, "why": why, "rejected_calls_of_this_kind": len(lst), "case": c, "event": ev,
                     "entry_points": sorted({t[1]["fn"] for t in lst}),
                     "rerun": "render the case with c18.case_sexp() into a file and run harness/scm/c18sort.scm on it; validate with spec/SortedTrace.tla"})
@@ -353,15 +360,207 @@ def sorting(chk, sc, build):
     return len(cases), accepted, len(classes)
 
 
+def adt_events(trace):
+    """split a trace into histories: list of (start index (1-based event number of the Reset), [events])"""
+    evs = vlib.read_ndjson(trace)
+    hists, cur = [], None
+    for i, e in enumerate(evs, 1):
+        if e.get("e") == "Reset":
+            cur = (i, [])
+            hists.append(cur)
+        elif e.get("e") == "Op" and cur is not None:
+            cur[1].append((i, e))
+    return evs, hists
+
+
+def adt_key(kind, op, why):
+    return "%s:clobber" % kind if why == "clobber" else "%s:%s:%s" % (kind, op, why)
+
+
+def adt_plan(chk, kind):
+    """(number of histories, depth) per generation run"""
+    if chk.thorough:
+        return [(1200, 8), (600, 16), (200, 50), (40, 200)]
+    return [(160, 8), (80, 16), (24, 50), (5, 200)]
+
+
+def dbg(*a):
+    if os.environ.get("C18_DEBUG"):
+        sys.stderr.write("[c18 %6.1f] %s\n" % (time.time() - T0, " ".join(str(x) for x in a)))
+
+
+T0 = time.time()
+
+
+def adt_kind(chk, sc, build, kind):
+    """MC + generate + run + validate one container library; returns a result dict (reports are made by the caller)"""
+    out = dict(kind=kind, mc=None, hists=0, accepted=0, ops=0, classes=set(), rejs={}, samples=[])
+    # ---- the model's own laws on all small histories
+    mv = KINDS[kind][4][1 if chk.thorough else 0]
+    r = vlib.run_tlc("Adt.tla", adt_cfg(sc, kind, "MC", maxver=mv), sc.path, workers=2, timeout=1500, heap="4g")
+    vlib.require_tlc_ok(r, "AdtMC %s" % kind)
+    if r.violated:
+        raise Broken("Adt.tla (%s) violates its own law %s" % (kind, r.violated))
+    if r.distinct < 50:
+        raise Broken("AdtMC %s explored only %d states" % (kind, r.distinct))
+    out["mc"] = r
+    dbg(kind, "MC", r.distinct, r.generated, round(r.seconds, 1))
+    # ---- histories from TLC, run on the implementation, judged by TLC
+    rng = __import__("random").Random(chk.seed * 131 + sum(map(ord, kind)))
+    plan = adt_plan(chk, kind)
+    gens = vlib.parallel(lambda t: adt_gen(sc, kind, t[1][0], t[1][1] + 1, chk.seed * 1000 + t[0] * 17 + len(kind)),
+                         list(enumerate(plan)), jobs=2)
+    allh = [(depth, h) for (num, depth), hs in zip(plan, gens) for h in hs]
+    dbg(kind, "generated", len(allh), "histories")
+    shards, cur, w = [], [], 0
+    for dh in allh:
+        cur.append(dh); w += len(dh[1])
+        if w > 7000:
+            shards.append(cur); cur, w = [], 0
+    if cur:
+        shards.append(cur)
+
+    def run_shard(t):
+        si, shard = t
+        hs = [h for _, h in shard]
+        offs = [rng.choice(ISET_OFFSETS) if kind == "iset" else 0 for _ in hs]
+        t1 = time.time()
+        trace = adt_run(build, sc, kind, si, hs, offs)
+        t2 = time.time()
+        r = adt_validate(sc, kind, trace)
+        dbg(kind, "shard", si, len(hs), "histories: driver", round(t2 - t1, 1), "validate", round(r.seconds, 1))
+        return shard, offs, trace, r
+
+    for shard, offs, trace, r in vlib.parallel(run_shard, list(enumerate(shards)), jobs=3):
+        evs, hists = adt_events(trace)
+        rej = trace_verdict_adt(r, "AdtTrace %s" % kind)
+        if len(hists) != len(shard):
+            raise Broken("adt driver (%s) logged %d of %d histories" % (kind, len(hists), len(shard)))
+        rejidx = {i: (op, why) for i, op, why in rej}
+        for hi, (start, ops) in enumerate(hists):
+            depth = shard[hi][0]
+            out["hists"] += 1
+            bad = [(i, e) for i, e in ops if i in rejidx]
+            if not bad:
+                out["accepted"] += 1
+                out["ops"] += len(ops)
+                for i, e in ops:
+                    out["classes"].add((kind, e["op"]["op"]))
+                if depth == 16 and len(out["samples"]) < 1:
+                    out["samples"].append({"kind": kind, "offset": str(offs[hi]), "history": [
+                        dict(op=e["op"], obs=e["obs"], new=e["val"]) for i, e in ops[:14]]})
+                continue
+            # the judged prefix of a rejected history still counts its accepted operations as exercised
+            first = bad[0][0]
+            for i, e in ops:
+                if i < first:
+                    out["classes"].add((kind, e["op"]["op"]))
+            # only the FIRST rejection of a history is reported: afterwards the store follows the implementation
+            # and later disagreements may be consequences of the first one
+            for i, e in bad[:1]:
+                op, why = rejidx[i]
+                key = adt_key(kind, op, why)
+                prefix = [x for j, x in ops if j <= i]
+                old = out["rejs"].get(key)
+                # prefer a history in which this is the first rejection, then the shortest
+                rank = (0 if i == first else 1, len(prefix))
+                if old is None or rank < old["rank"]:
+                    out["rejs"][key] = dict(key=key, kind=kind, op=op, why=why, offset=str(offs[hi]), nops=len(prefix), events=prefix,
+                                            rank=rank, count=(old["count"] if old else 0) + 1)
+                else:
+                    old["count"] += 1
+    return out
+
+
+def trace_verdict_adt(r, what):
+    if r.error and "Postcondition" not in r.error:
+        raise Broken("%s: TLC failed: %s" % (what, r.error[:2500]))
+    if re.search(r'<<"BADCASE"', r.out):
+        raise Broken("%s: a generated history is not applicable in the model: %s" % (what, re.findall(r'<<"BADCASE".*', r.out)[:3]))
+    rej = [(int(m.group(1)), m.group(2), m.group(3)) for m in re.finditer(r'<<"REJECT", (\d+), "([^"]*)", "([^"]*)">>', r.out)]
+    if r.ok:
+        if rej:
+            raise Broken("%s: accepted trace with REJECT lines" % what)
+        return []
+    if not re.search(r'"TRACE_REJECTED_AT"', r.out):
+        raise Broken("%s: TLC neither accepted nor rejected: %s" % (what, r.out[-1500:]))
+    if not rej:
+        raise Broken("%s: trace not consumable: %s" % (what, r.out[-800:]))
+    return rej
+
+
+def containers(chk, sc, build):
+    first = ["map", "iset", "set", "bag"]
+    rest = ["ralist", "deque", "queue", "seq"]
+    if chk.thorough or os.environ.get("C18_KINDS") == "all":
+        kinds = first + rest
+    else:
+        k = chk.seed % 4
+        kinds = first + [rest[k], rest[(k + 1) % 4]]
+    results = vlib.parallel(lambda kd: adt_kind(chk, sc, build, kd), kinds, jobs=len(kinds))
+    total_h = total_acc = 0
+    classes = set()
+    for res in results:
+        chk.add_mc("AdtMC_" + res["kind"], res["mc"])
+        total_h += res["hists"]
+        total_acc += res["accepted"]
+        classes |= res["classes"]
+        for smp in res["samples"]:
+            chk.sample(smp, limit=8)
+        def reval(key):
+            c = res["rejs"][key]
+            # re-validate the shortest rejected history alone (isolation + guards against a tool hiccup)
+            one = sc.file("adtone_%s.ndjson" % fname(key))
+            vlib.write_ndjson(one, [{"e": "Reset", "off": c["offset"]}] + c["events"] + [{"e": "End"}])
+            rej1 = trace_verdict_adt(adt_validate(sc, c["kind"], one, to=300), "AdtTrace single history")
+            if not any(op == c["op"] and why == c["why"] for _, op, why in rej1):
+                raise Broken("history rejected in the batch but accepted alone: %s" % key)
+            return key
+        for key in vlib.parallel(reval, sorted(res["rejs"]), jobs=8):
+            c = res["rejs"][key]
+            last = c["events"][-1]
+            chk.report(key, "%s %s: %s (%d rejected operations of this kind; shortest history %d operations; last: %s -> obs %s new %s changed %s%s)" %
+                       (c["kind"], c["op"], c["why"], c["count"], c["nops"], json.dumps(last["op"]), json.dumps(last["obs"]),
+                        json.dumps(last["val"]), json.dumps(last.get("chg")), (" error " + last.get("msg", "")) if last.get("err") else ""),
+                       "adt_%s.json" % fname(key),
+                       {"key": key, "kind": c["kind"], "why": c["why"], "rejected_operations_of_this_kind": c["count"],
+                        "offset": c["offset"], "history": [e["op"] for e in c["events"]], "events": c["events"],
+                        "rerun": "render the history with c18.hist_sexp() into a file, run harness/scm/c18adt.scm <kind> 16 <file>, validate with spec/AdtTrace.tla (cfg from c18.adt_cfg)"})
+        chk.cov.setdefault("containers", {})[res["kind"]] = dict(histories=res["hists"], accepted=res["accepted"],
+                                                                  accepted_operations=res["ops"], rejected_kinds=sorted(res["rejs"]))
+    for kd in kinds:
+        nops = len({c for c in classes if c[0] == kd})
+        if nops < 10:
+            raise Broken("only %d distinct operations of %s were exercised" % (nops, kd))
+    return total_h, total_acc, len(classes), kinds
+
+
 def run():
     chk = vlib.Check("C18")
     with vlib.Scratch("c18") as sc:
         build = vlib.build_repo(sc.sub("build"))
-        ncases, acc, ncls = sorting(chk, sc, build)
-        chk.cov["traces_validated_against_impl"] += acc
-        chk.cov["evaluations"] += ncases
-        chk.cov["distinct_nontrivial"] += ncls
-        chk.cov["rule"] = "sorting: a case = one call of a SRFI 95/132 entry point; distinct = (entry point, element wrapping, key domain, ordering, sequence type, size class, input pattern)"
+        jobs = [("sort", lambda: sorting(chk, sc, build)), ("adt", lambda: containers(chk, sc, build))]
+        if os.environ.get("C18_ONLY"):
+            jobs = [j for j in jobs if j[0] == os.environ["C18_ONLY"]]
+        res = dict(zip([j[0] for j in jobs], vlib.parallel(lambda j: j[1](), jobs, jobs=2)))
+        if "sort" in res:
+            ncases, acc, ncls = res["sort"]
+            chk.cov["traces_validated_against_impl"] += acc
+            chk.cov["evaluations"] += ncases
+            chk.cov["distinct_nontrivial"] += ncls
+        if "adt" in res:
+            nh, nacc, ncls, kinds = res["adt"]
+            chk.cov["traces_validated_against_impl"] += nacc
+            chk.cov["evaluations"] += nh
+            chk.cov["distinct_nontrivial"] += ncls
+            chk.cov["container_kinds_run"] = kinds
+        chk.cov["rule"] = ("sorting: a case = one call of a SRFI 95/132 entry point, distinct = (entry point, element wrapping, key domain, "
+                           "ordering, sequence type, size class, input pattern); containers: a case = one TLC-generated operation history "
+                           "(8-200 operations) run on the library, accepted iff every observation, every new version and every older "
+                           "version agrees with Adt.tla; distinct = (library, operation) pairs with an accepted call")
+        chk.assumptions += ["the key tables of the sort driver are ranked consistently by the ordering predicates (logged and checked by TLC per run)",
+                            "procedure arguments of the container operations come from the coded families of spec/AdtBase.tla",
+                            "TLC, the JSON trace reader, the canonicalisation code of the drivers (sorting of set/bag/mapping contents)"]
     return chk.finish()
 
 
@@ -373,26 +572,40 @@ def replay(path):
 # ------------------------------------------------------------------------------------------------
 # containers
 # ------------------------------------------------------------------------------------------------
+K16 = "{" + ", ".join(map(str, range(16))) + "}"
+ISET_KEYS = "<- ISetKeysGen"
 KINDS = {
-    # kind: (keys for MC, M for MC, keys for Gen/Trace, M)
-    "set": ("{0, 1, 2}", 3, "{" + ", ".join(map(str, range(16))) + "}", 16),
+    # kind: (keys for MC, M for MC, keys for Gen/Trace, M, MaxVer for MC quick/thorough)
+    "set": ("{0, 1, 2}", 3, K16, 16, (3, 4)),
+    "bag": ("{0, 1, 2}", 3, K16, 16, (2, 3)),
+    "map": ("{0, 1, 2}", 3, K16, 16, (2, 3)),
+    "iset": ("{0, 1, 2, 130}", 3, ISET_KEYS, 16, (2, 3)),
+    "ralist": ("{0, 1, 2}", 3, K16, 16, (3, 4)),
+    "queue": ("{0, 1, 2}", 3, K16, 16, (2, 3)),
+    "deque": ("{0, 1, 2}", 3, K16, 16, (2, 3)),
+    "seq": ("{0, 1, 2}", 3, K16, 16, (2, 3)),
 }
+ISET_OFFSETS = [0, 0, 2 ** 31, -(2 ** 40), 2 ** 62 - 200, -(2 ** 62) + 100, 2 ** 64]
+
+
+def keyspec(k):
+    return k if k.startswith("<-") else "= " + k
 
 
 def adt_cfg(sc, kind, mode, depth=0, maxver=2, klen=None):
-    mck, mcm, gk, gm = KINDS[kind]
+    mck, mcm, gk, gm, _ = KINDS[kind]
     f = sc.file("Adt_%s_%s_%d.cfg" % (mode, kind, depth))
     with open(f, "w") as fh:
         if mode == "MC":
-            fh.write("SPECIFICATION Spec\nCONSTANTS Kind = \"%s\"\n Keys = %s\n M = %d\n MaxVer = %d\n KLen = %d\n GenDepth = 0\n"
-                     "CONSTRAINT Bounded\nINVARIANTS TypeInv LawInv CanonInv LiveInv\nPROPERTIES Persist\nCHECK_DEADLOCK FALSE\n"
-                     % (kind, mck, mcm, maxver, 1 if klen is None else klen))
+            fh.write("SPECIFICATION Spec\nCONSTANTS Kind = \"%s\"\n Keys %s\n M = %d\n MaxVer = %d\n KLen = %d\n GenDepth = 0\n"
+                     "INVARIANTS TypeInv LawInv CanonInv LiveInv\nPROPERTIES Persist\nCHECK_DEADLOCK FALSE\n"
+                     % (kind, keyspec(mck), mcm, maxver, 1 if klen is None else klen))
         elif mode == "Gen":
-            fh.write("SPECIFICATION GenSpec\nCONSTANTS Kind = \"%s\"\n Keys = %s\n M = %d\n MaxVer = 0\n KLen = %d\n GenDepth = %d\n"
-                     "INVARIANTS Dump\nCHECK_DEADLOCK FALSE\n" % (kind, gk, gm, 4 if klen is None else klen, depth))
+            fh.write("SPECIFICATION GenSpec\nCONSTANTS Kind = \"%s\"\n Keys %s\n M = %d\n MaxVer = 0\n KLen = %d\n GenDepth = %d\n"
+                     "INVARIANTS Dump\nCHECK_DEADLOCK FALSE\n" % (kind, keyspec(gk), gm, 4 if klen is None else klen, depth))
         else:
-            fh.write("SPECIFICATION TraceSpec\nCONSTANTS Kind = \"%s\"\n Keys = %s\n M = %d\n MaxVer = 0\n KLen = 4\n GenDepth = 0\n"
-                     "POSTCONDITION Accepted\nCHECK_DEADLOCK FALSE\n" % (kind, gk, gm))
+            fh.write("SPECIFICATION TraceSpec\nCONSTANTS Kind = \"%s\"\n Keys %s\n M = %d\n MaxVer = 0\n KLen = 4\n GenDepth = 0\n"
+                     "POSTCONDITION Accepted\nCHECK_DEADLOCK FALSE\n" % (kind, keyspec(gk), gm))
     return f
 
 
